@@ -85,7 +85,7 @@ pub fn profile(prop: &str) -> Profile {
         },
         "C09" => Profile {
             prop: "C09",
-            w: [14, 40, 14, 8, 5, 1, 5, 1, 1, 1, 0, 0, 0, 0, 0, 0, 0, 0],
+            w: [14, 40, 14, 8, 5, 1, 5, 1, 1, 1, 2, 0, 0, 0, 0, 4, 0, 0],
             kind_w: [10, 35, 40, 3, 2, 10],
             size_w: [30, 65, 5, 0, 0],
             obs_level: 1,
@@ -852,7 +852,10 @@ impl Gen {
                     match self.rng.weighted(&[55, 20, 10, 15]) {
                         0 => {
                             let k = self.rng.below(6) as u32;
-                            let e = self.new_event();
+                            // a plain event, or (address-focused runs: mostly) a version that
+                            // replaces the holder of an address
+                            let versions = matches!(self.p.prop, "C09" | "C13" | "C12");
+                            let e = if self.rng.chance(if versions { 7 } else { 2 }, 10) { self.new_version() } else { self.new_event() };
                             self.apply_store_to_gen_model(&e);
                             ops.push(Op::Fail(k));
                             ops.push(Op::Store(e));
